@@ -253,49 +253,92 @@ _MEM_LIST = "all(n in componentAnchors and all(x in componentAnchors[n] for x in
 _LM_MEM = "all(all(x in ligatureMarks[n - 1] for x in mem[n]) for n in mem)"
 
 _GK = f"{AL}[result[k].name]"
-contract(
-    FN,
-    name="complete",
-    **COMMON,
-    globals={"max": MAX_KEYS},
-    ensures={
-        # a named anchor numbered N of the glyph that no LATER bare '_N' resets is in component N of the glyph's statement
-        "kept-anchors-in-their-component": f"all(result[k].name in {AL} and all(implies({_named(_GK + '[b]')} and not any({_bare(_GK + '[c]')} and {_GK}[c].number == {_GK}[b].number for c in range(b + 1, len({_GK}))),"
-        f" {_GK}[b].number <= len(result[k].marks) and {_GK}[b] in result[k].marks[{_GK}[b].number - 1])"
-        f" for b in range(len({_GK}))) for k in range(len(result)))",
-    },
-    canaries={"never-empty": "len(result) > 0"},
-    locals={**LOCALS, "r0": List(MARK2LIGA), "ca0": Dict(INT, List(NA)), "lb": LB, "mem": MEM, "lbs": Dict(INT, LB), "mems": Dict(INT, MEM), "src": Dict(INT, INT), "mem0": MEM, "mtmp": SET_NA2},
-    ghost_vars={**_R0, "mtmp": (SET_NA2, "set()"), "ca0": (Dict(INT, List(NA)), "{}"), "lb": (LB, "{}"), "mem": (MEM, "{}"), "lbs": (Dict(INT, LB), "{}"), "mems": (Dict(INT, MEM), "{}"),
-                "src": (Dict(INT, INT), "{}"), "mem0": (MEM, "{}")},
-    ghost={**_R0_GHOST, "number = anchor.number": ["ca0 = {**componentAnchors}", "mem0 = {**mem}"],
+_NO_LATER_BARE = f"not any({_bare(_GK + '[c]')} and {_GK}[c].number == {_GK}[b].number for c in range(b + 1, len({_GK})))"
+# the ghost-free statement (run-time checked on the real function; deductively it is the composition of #kept and #listed below: x kept => x in mems[k][N];
+# mems[k][N] is within marks[N-1] — lemma C06.lemma.liga-complete; the ghosts of the two variants are the same deterministic function of the run)
+_COMPLETE = (f"all(result[k].name in {AL} and all(implies({_named(_GK + '[b]')} and {_NO_LATER_BARE},"
+             f" {_GK}[b].number <= len(result[k].marks) and {_GK}[b] in result[k].marks[{_GK}[b].number - 1])"
+             f" for b in range(len({_GK}))) for k in range(len(result)))")
+_CLOCALS = {**LOCALS, "r0": List(MARK2LIGA), "ca0": Dict(INT, List(NA)), "lb": LB, "mem": MEM, "lbs": Dict(INT, LB), "mems": Dict(INT, MEM), "src": Dict(INT, INT), "mem0": MEM, "mtmp": SET_NA2}
+_CGHOST_VARS = {**_R0, "mtmp": (SET_NA2, "set()"), "ca0": (Dict(INT, List(NA)), "{}"), "lb": (LB, "{}"), "mem": (MEM, "{}"), "lbs": (Dict(INT, LB), "{}"), "mems": (Dict(INT, MEM), "{}"),
+                "src": (Dict(INT, INT), "{}"), "mem0": (MEM, "{}")}
+_CGHOST = {**_R0_GHOST, "number = anchor.number": ["ca0 = {**componentAnchors}", "mem0 = {**mem}"],
            "componentAnchors = {}": ["lb = {}", "mem = {}"],
            SETBARE: ["lb = {**lb, number: j}", "mem = {**mem, number: set()}"],
            SETAPP: ["mtmp = mem[number] if (number + 0) in mem else set()", "mtmp.add(anchor)", "mem = {**mem, number: mtmp}"],
            # (per record k: dicts keyed by k, not lists — an update is an array store, no sequence reasoning for the earlier records)
-           APPEND: ["src = {**src, len(r0): i}", "lbs = {**lbs, len(r0): lb}", "mems = {**mems, len(r0): mem}"]},
+           APPEND: ["src = {**src, len(r0): i}", "lbs = {**lbs, len(r0): lb}", "mems = {**mems, len(r0): mem}"]}
+_MEM_UPD = "all(implies(n != number, n in mem and mem[n] == mem0[n]) for n in mem0) and all(n in mem0 or n == number for n in mem)"
+_SRC_INV = f"all(0 <= src[k] and src[k] < i and result[k].name == {KEYS}[src[k]] for k in range(len(result)))"
+_AK = f"{AL}[{KEYS}[src[k]]]"
+
+# ---- #kept: an anchor that no later bare '_N' resets is a member of the ghost set mems[k][N] of its record -----------------------------------------------
+def _alive(A, b, hi):
+    """named anchor A[b] with no bare anchor of the same number at the positions b+1 .. hi-1"""
+    return f"({_named(A + '[b]')} and not any({_bare(A + '[c]')} and {A}[c].number == {A}[b].number for c in range(b + 1, {hi})))"
+
+
+contract(
+    FN,
+    name="kept",
+    **COMMON,
+    globals={"max": MAX_KEYS},
+    ensures={
+        "kept-anchors-are-members": f"all(result[k].name in {AL} and all(implies({_alive(_GK, 'b', 'len(' + _GK + ')')},"
+        f" ({_GK}[b].number + 0) in mems[k] and {_GK}[b] in mems[k][{_GK}[b].number]) for b in range(len({_GK}))) for k in range(len(result)))",
+    },
+    # (the run-time side evaluates the ghost-free statement)
+    bounded_ensures={"kept-anchors-in-their-component": _COMPLETE},
+    canaries={"never-empty": "len(result) > 0"},
+    locals=_CLOCALS, ghost_vars=_CGHOST_VARS, ghost=_CGHOST,
     hints={
         APPEND: _APPENDED + [
-            "lbs[len(r0)] == lb and mems[len(r0)] == mem and src[len(r0)] == i",
-            f"all(implies({_kept('lb', 'anchors[b]', 'b')}, (anchors[b].number + 0) in mem and anchors[b] in mem[anchors[b].number]) for b in range(len(anchors)))",
+            "mems[len(r0)] == mem and src[len(r0)] == i",
+            "all(implies(" + _alive("anchors", "b", "len(anchors)") + ", (anchors[b].number + 0) in mem and anchors[b] in mem[anchors[b].number]) for b in range(len(anchors)))",
         ],
+        SETAPP: [_MEM_UPD, "(number + 0) in mem and anchor in mem[number]", "implies((number + 0) in mem0, all(x in mem[number] for x in mem0[number]))"],
+        SETBARE: [_MEM_UPD],
+    },
+    loops={
+        OUTER: Loop(index="i", invariants={
+            "src": _SRC_INV,
+            "kept": f"all(all(implies({_alive(_AK, 'b', 'len(' + _AK + ')')}, ({_AK}[b].number + 0) in mems[k] and {_AK}[b] in mems[k][{_AK}[b].number])"
+            f" for b in range(len({_AK}))) for k in range(len(result)))",
+        }),
+        INNER: Loop(index="j", invariants={
+            "kept": "all(implies(" + _alive("anchors", "b", "j") + ", (anchors[b].number + 0) in mem and anchors[b] in mem[anchors[b].number]) for b in range(j))",
+        }),
+        FILL: Loop(index="t", invariants={}),
+    },
+    runtime=_RT,
+)
+
+# ---- #listed: the ghost set mems[k][N] of a record is within component N of its statement ------------------------------------------------------------------
+_LISTED = "all(all(n >= 1 and n <= len(result[k].marks) and all(x in result[k].marks[n - 1] for x in mems[k][n]) for n in mems[k]) for k in range(len(result)))"
+contract(
+    FN,
+    name="listed",
+    **COMMON,
+    globals={"max": MAX_KEYS},
+    ensures={"members-are-listed": _LISTED},
+    canaries={"never-empty": "len(result) > 0"},
+    locals=_CLOCALS, ghost_vars=_CGHOST_VARS, ghost=_CGHOST,
+    hints={
+        APPEND: _APPENDED + ["mems[len(r0)] == mem"],
         SETAPP: [
             "all(implies(n != number, n in componentAnchors and componentAnchors[n] == ca0[n]) for n in ca0)",
             "all(n in ca0 or n == number for n in componentAnchors)",
             "(number + 0) in componentAnchors and componentAnchors[number] == (ca0[number] if (number + 0) in ca0 else []) + [anchor]",
             # (membership, not positions: what the solvers know natively about `x in (xs + [a])`)
             "anchor in componentAnchors[number]",
-            "all(implies(n != number, n in mem and mem[n] == mem0[n]) for n in mem0) and all(n in mem0 or n == number for n in mem)",
+            _MEM_UPD,
             "all(x in componentAnchors[number] for x in mem[number])",
-            # the invariant's clause for the updated entry and for the others, in the shape of the invariant
-            "all(implies(n == number, n in componentAnchors and all(x in componentAnchors[n] for x in mem[n])) for n in mem)",
-            "all(implies(n != number, n in componentAnchors and all(x in componentAnchors[n] for x in mem[n])) for n in mem)",
         ],
         SETBARE: [
             "all(implies(n != number, n in componentAnchors and componentAnchors[n] == ca0[n]) for n in ca0)",
             "all(n in ca0 or n == number for n in componentAnchors)",
             "(number + 0) in componentAnchors and len(componentAnchors[number]) == 0",
-            "all(implies(n != number, n in mem and mem[n] == mem0[n]) for n in mem0) and all(n in mem0 or n == number for n in mem)",
+            _MEM_UPD,
         ],
         "for number in range(1, max(componentAnchors.keys()) + 1):": [
             "len(ligatureMarks) == max(componentAnchors.keys())",
@@ -305,20 +348,11 @@ contract(
         ],
     },
     loops={
-        OUTER: Loop(index="i", invariants={
-            "src": f"all(0 <= src[k] and src[k] < i and result[k].name == {KEYS}[src[k]] for k in range(len(result)))",
-            "last-bare": f"all(all(0 <= lbs[k][n] and lbs[k][n] < len({AL}[{KEYS}[src[k]]]) and {_bare(AL + '[' + KEYS + '[src[k]]][lbs[k][n]]')} and {AL}[{KEYS}[src[k]]][lbs[k][n]].number == n for n in lbs[k]) for k in range(len(result)))",
-            "kept": f"all(all(implies({_kept('lbs[k]', AL + '[' + KEYS + '[src[k]]][b]', 'b')}, ({AL}[{KEYS}[src[k]]][b].number + 0) in mems[k] and {AL}[{KEYS}[src[k]]][b] in mems[k][{AL}[{KEYS}[src[k]]][b].number])"
-            f" for b in range(len({AL}[{KEYS}[src[k]]]))) for k in range(len(result)))",
-            "listed": "all(all(n >= 1 and n <= len(result[k].marks) and all(x in result[k].marks[n - 1] for x in mems[k][n]) for n in mems[k]) for k in range(len(result)))",
-        }),
+        OUTER: Loop(index="i", invariants={"listed": _LISTED}),
         INNER: Loop(index="j", invariants={
             "keys": "all(n in componentAnchors for n in mem) and all(n >= 1 for n in componentAnchors)",
-            "last-bare": "all(0 <= lb[n] and lb[n] < j and " + _bare("anchors[lb[n]]") + " and anchors[lb[n]].number == n for n in lb)",
             "mem-listed": _MEM_LIST,
-            "kept": "all(implies(" + _kept("lb", "anchors[b]", "b") + ", (anchors[b].number + 0) in mem and anchors[b] in mem[anchors[b].number]) for b in range(j))",
         }),
         FILL: Loop(index="t", invariants={"len": "len(ligatureMarks) == t", "filled": _FILLED}),
     },
-    runtime=_RT,
 )
